@@ -78,6 +78,24 @@ def opcodesToDiff (b : List Char) : List Opcode → List Op → Except Err (List
         opcodesToDiff b rest (seqRemoverange di oc.i1 (oc.i2 - oc.i1))
       else .error (.runtime "Unknown action")
 
+/-- difflib's contract for `get_opcodes()`: the opcodes tile `a` and `b` from `(0,0)` to the ends,
+    `equal` blocks are non-empty and equal, and two edits are always separated by an `equal` block.
+    The round-trip theorems assume it of the oracle; the harness evaluates it on every recorded answer. -/
+def opcodesValidAux (a b : List Char) : List Opcode → Nat → Nat → Bool → Bool
+  | [], i, j, _ => i == a.length && j == b.length
+  | oc :: rest, i, j, lastEdit =>
+      oc.i1 == i && oc.j1 == j && decide (oc.i1 ≤ oc.i2) && decide (oc.j1 ≤ oc.j2) &&
+      decide (oc.i2 ≤ a.length) && decide (oc.j2 ≤ b.length) &&
+      (if oc.tag == "equal" then
+         decide (oc.i1 < oc.i2) && slice a oc.i1 oc.i2 == slice b oc.j1 oc.j2 &&
+         opcodesValidAux a b rest oc.i2 oc.j2 false
+       else if oc.tag == "replace" || oc.tag == "insert" || oc.tag == "delete" then
+         !lastEdit && (oc.tag != "insert" || oc.i1 == oc.i2) && (oc.tag != "delete" || oc.j1 == oc.j2) &&
+         opcodesValidAux a b rest oc.i2 oc.j2 true
+       else false)
+
+def opcodesValid (a b : List Char) (ocs : List Opcode) : Bool := opcodesValidAux a b ocs 0 0 false
+
 def diffStringsByChar (O : Oracle) (a b : List Char) : Except Err (List Op) :=
   if a == b then .ok [] else do
     let ocs ← O.opcodes a b
@@ -142,18 +160,20 @@ def snakePatches (recur : Recur) (cfg : Cfg) (dfr : Differ) (subpath : String) (
       let cd ← recur cfg dfr subpath av bv
       snakePatches recur cfg dfr subpath al bl s m (seqPatch di (s.i + k) cd)
 
+/-- one snake of `compute_diff_from_snakes`: state is (diff so far, i0, j0) -/
+def snakeStep (recur : Recur) (cfg : Cfg) (subpath : String) (al bl : List J)
+    (st : List Op × Nat × Nat) (s : Snake) : Except Err (List Op × Nat × Nat) := do
+  let (di, i0, j0) := st
+  let di := if s.i > i0 then seqRemoverange di i0 (s.i - i0) else di
+  let di := if s.j > j0 then seqAddrange di i0 (slice bl j0 s.j) else di
+  let di ← snakePatches recur cfg (cfg.differ subpath) subpath al bl s s.n di
+  pure (di, s.i + s.n, s.j + s.n)
+
 /-- `compute_diff_from_snakes` -/
 def fromSnakes (recur : Recur) (cfg : Cfg) (path : String) (al bl : List J) (snakes : List Snake) :
     Except Err (List Op) := do
-  let subpath := path ++ "/*"
-  let dfr' := cfg.differ subpath
-  let step : List Op × Nat × Nat → Snake → Except Err (List Op × Nat × Nat) := fun st s => do
-    let (di, i0, j0) := st
-    let di := if s.i > i0 then seqRemoverange di i0 (s.i - i0) else di
-    let di := if s.j > j0 then seqAddrange di i0 (slice bl j0 s.j) else di
-    let di ← snakePatches recur cfg dfr' subpath al bl s s.n di
-    pure (di, s.i + s.n, s.j + s.n)
-  let (di, _, _) ← (snakes ++ [(⟨al.length, bl.length, 0⟩ : Snake)]).foldlM step ([], 0, 0)
+  let (di, _, _) ← (snakes ++ [(⟨al.length, bl.length, 0⟩ : Snake)]).foldlM
+    (snakeStep recur cfg (path ++ "/*") al bl) ([], 0, 0)
   pure di
 
 /-- `diff_sequence_multilevel` -/
@@ -163,6 +183,15 @@ def multilevel (O : Oracle) (recur : Recur) (cfg : Cfg) (path : String) (al bl :
   let cmps := names.map O.pred
   let snakes ← snakesML cmps al bl (names.length - 1) ⟨0, 0, al.length, bl.length⟩
   fromSnakes recur cfg path al bl snakes
+
+/-- one entry of the shallow diff in `diff_lists`: state is (diff so far, i, j) -/
+def listStep (recur : Recur) (cfg : Cfg) (subpath : String) (al bl : List J)
+    (st : List Op × Nat × Nat) (e : Op) : Except Err (List Op × Nat × Nat) := do
+  let (di, i, j) := st
+  let n := e.idx - i
+  let (askip, bskip) ← countConsumed e
+  let di ← itemLoop recur cfg subpath al bl i j n di
+  pure (seqAppend di e, i + n + askip, j + n + bskip)
 
 /-- `diff_lists` -/
 def diffLists (O : Oracle) (recur : Recur) (cfg : Cfg) (path : String) (al bl : List J) :
@@ -175,13 +204,7 @@ def diffLists (O : Oracle) (recur : Recur) (cfg : Cfg) (path : String) (al bl : 
       | none => throw (.index "compares[0]")
     let shallow ← diffSequence (O.pred c0) al bl
     let subpath := path ++ "/*"
-    let step : List Op × Nat × Nat → Op → Except Err (List Op × Nat × Nat) := fun st e => do
-      let (di, i, j) := st
-      let n := e.idx - i
-      let (askip, bskip) ← countConsumed e
-      let di ← itemLoop recur cfg subpath al bl i j n di
-      pure (seqAppend di e, i + n + askip, j + n + bskip)
-    let (di, i, j) ← shallow.foldlM step ([], 0, 0)
+    let (di, i, j) ← shallow.foldlM (listStep recur cfg subpath al bl) ([], 0, 0)
     if al.length < i then throw (.assertion "Cannot have negative remaining entries")
     let n := al.length - i
     if bl.length < j ∨ bl.length - j != n then throw (.assertion "Base/remote indexing mismatch")
